@@ -41,18 +41,34 @@ def describe(e, b):
     return out
 
 
+def pattern_rows(w, vh, case, name):
+    dd = w.sub(name)
+    # the case keeps its position (the driver seeds its generator with it)
+    lib.write_ndjson(os.path.join(dd, "p.ndjson"), [{"preset": [], "path": "returning"}] * (case["case"] - 1) + [case["src"][1]])
+    lib.run([vh, "rtrip-pattern", "-cases", os.path.join(dd, "p.ndjson"), "-out", os.path.join(dd, "o.ndjson")], timeout=600)
+    return [x for x in lib.read_ndjson(os.path.join(dd, "o.ndjson")) if x["case"] == case["case"]]
+
+
 def check(w, tier, t0):
     vh = lib.build_harness()
     sd = lib.seed()
     verdict = lib.Verdict(PROP)
     d = w.sub("mc")
-    r = lib.tlc(d, "RoundTrip", lib.cfg_of("RoundTrip", MAXRECS=5 if tier == "quick" else 8), timeout=3000)
+    r = lib.tlc(d, "RoundTrip", lib.cfg_of("RoundTrip", MAXRECS=5 if tier == "quick" else 8), timeout=3000, extra=["-dump", "states.dump"])
     if not r.ok:
         raise lib.Inconclusive("RoundTrip model run failed:\n" + (r.error or ""))
     states, trans = r.distinct, r.generated
+    # direction A: every (preset pattern, create path) state TLC explored, inside the documented domain
+    pats = [{"preset": st["preset"], "path": st["path"]} for st in lib.parse_dump_states(os.path.join(d, "states.dump"), ["preset", "path"])]
     n = 60 if tier == "quick" else 10000
     d = w.sub("run")
     events = []
+    lib.write_ndjson(os.path.join(d, "pats.ndjson"), pats)
+    lib.run([vh, "rtrip-pattern", "-cases", os.path.join(d, "pats.ndjson"), "-out", os.path.join(d, "pats.out.ndjson")], timeout=6000)
+    for e in lib.read_ndjson(os.path.join(d, "pats.out.ndjson")):
+        e["_src"] = ["pattern", pats[e["case"] - 1]]
+        events.append(e)
+    npat = len(events)
     with ThreadPoolExecutor(max_workers=8) as ex:
         for part in ex.map(lambda j: gen(vh, d, "r%d" % j, n, sd * 1000 + j), range(8)):
             events += part
@@ -64,6 +80,9 @@ def check(w, tier, t0):
         verdict.bad({"src": e["_src"], "case": e["case"]}, None, describe(e, b))
 
     def reproduce(case):
+        if case["src"][0] == "pattern":
+            vv, _, _ = validate(w, "R" + lib.case_hash(case), pattern_rows(w, vh, case, "repro-" + lib.case_hash(case)))
+            return len(vv["bad"]) > 0
         rows = gen(vh, w.sub("repro-" + lib.case_hash(case)), "r", case["src"][0], case["src"][1], only=case["case"])
         vv, _, _ = validate(w, "R" + lib.case_hash(case), rows)
         return len(vv["bad"]) > 0
@@ -80,7 +99,7 @@ def check(w, tier, t0):
     cov = {"states": states, "transitions": trans, "traces_validated_against_impl": len(events), "samples": samples,
            "evaluations": len(events), "distinct_nontrivial": len(nontrivial),
            "rule": "one evaluation = one generated model type (auto-increment / string / composite key, 3-7 fields drawn from %d kinds: signed/unsigned ints, floats, bool, string, bytes, time, pointers, sql.Null*, custom Scanner/Valuer types, json/gob/unixtime serializers, embedded struct with prefix; renamed columns, literal defaults, autoCreateTime/autoUpdateTime variants) with 1-5 records of boundary values written by Create single / slice / pointer slice / CreateInBatches / maps under RETURNING, LastInsertId-last and LastInsertId-first dialect variants and read back by Find into structs and maps and First; non-trivial = at least two records" % len({k[0] for k in kinds}),
-           "records": nrec, "distinct_kind_tag_mode_dialect_combinations": len(kinds)}
+           "records": nrec, "distinct_kind_tag_mode_dialect_combinations": len(kinds), "preset_patterns_replayed": npat}
     lib.write_evidence(PROP, tier, "model_checking", cov, time.time() - t0, len(verdict.violations),
                        ["the canonicalisation of Go values to tokens (harness/rtrip/types.go) is trusted: TLA+ decides token equality, defaults, key identity/order and back-fill arithmetic, not encode/decode fidelity itself",
                         "within one slice either all or none of the records carry a preset key on the LastInsertId paths",
@@ -91,7 +110,10 @@ def check(w, tier, t0):
 def replay(w, path):
     vh = lib.build_harness()
     case = json.load(open(path))
-    rows = gen(vh, w.sub("replay"), "r", case["src"][0], case["src"][1], only=case["case"])
+    if case["src"][0] == "pattern":
+        rows = pattern_rows(w, vh, case, "replay")
+    else:
+        rows = gen(vh, w.sub("replay"), "r", case["src"][0], case["src"][1], only=case["case"])
     v, _, _ = validate(w, "R", rows)
     if v["bad"]:
         print("VIOLATION property=%s replay=%s" % (PROP, path))
